@@ -157,6 +157,11 @@ class ZeroconfPairing(AbstractPairing):
         """The IP and/or port of the accessory has changed."""
 
     def _async_description_update(self, description: HomeKitService | None) -> None:
+        if self._shutdown:
+            # A pairing that was shut down ignores updates: its description
+            # is no longer maintained, so there is no endpoint change to act on.
+            return
+
         old_description = self.description
 
         super()._async_description_update(description)
